@@ -736,7 +736,18 @@ def rule_r10(ctx) -> RuleResult:
     return rr
 
 
+def rule_r13(ctx) -> RuleResult:
+    """Pages added but not yet committed live in the open transaction; nothing on the ingestion path may
+    roll that transaction back behind the caller's back (shared with C12.R7)."""
+    from ..core.report import shared
+    from . import c12
+
+    return shared(c12.rule_r7(ctx), "C10.R13", "no rollback scope can discard added pages before the first commit (shared with C12.R7)",
+                  "pages that add_page() reported as stored are absent afterwards (and still served from the memo under one spelling)",
+                  min_instances=2)
+
+
 def run(ctx) -> list:
     sf = SqlFacts(ctx.index)
     return [rule_r1(ctx, sf), rule_r2(ctx, sf), rule_r3(ctx, sf), rule_r4(ctx, sf), rule_r5(ctx, sf), rule_r6(ctx, sf),
-            rule_r7(ctx, sf), rule_r8(ctx), rule_r9(ctx), rule_r10(ctx), rule_r11(ctx, sf), rule_r12(ctx, sf)]
+            rule_r7(ctx, sf), rule_r8(ctx), rule_r9(ctx), rule_r10(ctx), rule_r11(ctx, sf), rule_r12(ctx, sf), rule_r13(ctx)]
